@@ -305,7 +305,15 @@ func blobTxOf(r *Rng, blobs []genBlob) []byte {
 		bs[i] = g.blob()
 	}
 	// the inner "PFB": 329 arbitrary bytes then the sizes (the repo's mock format)
-	inner := mockPFB(r.Bytes(mockPFBExtraBytes), sizes)
+	prefix := r.Bytes(mockPFBExtraBytes)
+	if r.Intn(10) == 0 {
+		// an inner transaction that is ITSELF a well-formed IndexWrapper message (type id first, then the tx
+		// field covering the rest, sizes included): a blob transaction's inner bytes are opaque, whatever
+		// they decode as
+		n := mockPFBExtraBytes - 9 + 4*len(sizes)
+		copy(prefix, []byte{0x1a, 0x04, 'I', 'N', 'D', 'X', 0x0a, byte(n&0x7f) | 0x80, byte(n >> 7)})
+	}
+	inner := mockPFB(prefix, sizes)
 	if shortInner && r.Bool(45) {
 		inner = r.Bytes(1 + r.Intn(80))
 		if r.Bool(30) {
@@ -354,10 +362,11 @@ func randTxList(r *Rng, nNormal, nBlobTx int, maxBlobLen int, mixed bool, nss []
 		}
 		switch r.Intn(10) {
 		case 0, 1:
-			// end exactly on, or one byte past, the end of the current share
-			l = room - 2 + r.Intn(2)
+			// end exactly on, or one to four bytes past, the end of the current share (a first share holds four
+			// bytes less than a continuation share: a room computed with the wrong one is off by up to four)
+			l = room - 2 + r.Intn(6)
 			if l < 128 {
-				l = room - 1 + r.Intn(2)
+				l = room - 1 + r.Intn(6)
 			}
 		case 2:
 			// a length on a varint-width boundary; the next transaction then tends to be a boundary filler
@@ -382,6 +391,24 @@ func randTxList(r *Rng, nNormal, nBlobTx int, maxBlobLen int, mixed bool, nss []
 				t = append(append([]byte{}, enc...), 0x08)
 			} else {
 				t = append([]byte{}, enc[:len(enc)-1]...)
+			}
+		}
+		if almostBlobOK && r.Intn(16) == 0 {
+			// an ORDINARY transaction shaped like a protobuf message with a bytes field 1, a bytes field 2 that
+			// is NOT a blob, and no (or another) type id - what an unsigned sdk transaction looks like: it parses
+			// under the BlobTx schema up to the type id check and must then be treated as ordinary
+			// field 2 is itself a well-formed message with bytes fields 1 and 2 (as BlobProto has), but not a
+			// valid blob (namespace id of the wrong length)
+			f2 := append(pbBytes(1, r.Bytes(1+r.Intn(20))), pbBytes(2, r.Bytes(1+r.Intn(40)))...)
+			if r.Bool(30) {
+				f2 = r.Bytes(1 + r.Intn(60))
+			}
+			t = append(pbBytes(1, r.Bytes(1+r.Intn(80))), pbBytes(2, f2)...)
+			switch r.Intn(3) {
+			case 1:
+				t = append(t, pbBytes(3, []byte("BLOC"))...)
+			case 2:
+				t = append(t, pbBytes(3, nil)...)
 			}
 		}
 		if len(normals) > 0 && r.Intn(12) == 0 {
